@@ -922,3 +922,11 @@ def is_poll_disc(c):
     while top.k in ('let', 'ref', 'deref'):
         top = top.c if top.k == 'let' else top.a
     return top.k == 'call' and top.c is not None and top.c.declared.endswith('Future::poll')
+
+
+def calls_decl_expr(e, *suffixes):
+    """does the expression contain a call whose declared callee ends with one of the suffixes?"""
+    for x in e.walk():
+        if x.k == 'call' and x.c is not None and any(x.c.declared.endswith(s) for s in suffixes):
+            return True
+    return False
